@@ -10,7 +10,7 @@ class Unsupported(Exception):
 
 def sym(name):
     """how LLVM prints the symbol"""
-    return '@' + name if re.fullmatch(r"[A-Za-z0-9_.$\-]+", name) else '@"' + name + '"'
+    return '@' + name if re.fullmatch(r"[A-Za-z0-9_.\-]+", name) else '@"' + name + '"'
 
 
 def function_blocks(irtext, fname):
@@ -139,12 +139,11 @@ def lean_tok(t, ids):
 
 
 def lean_fact(pid, toks, imports, golist, ids, has_patch_fn=False, chained=False, comment=""):
-    return ("  { id := %d, hasPatchFn := %s, chained := %s,\n    toks := [%s],\n    imports := [%s], goList := [%s] }%s" % (
-        pid, "true" if has_patch_fn else "false", "true" if chained else "false",
+    return ("%s  { id := %d, hasPatchFn := %s, chained := %s,\n    toks := [%s],\n    imports := [%s], goList := [%s] }" % (
+        ("  -- " + comment + "\n") if comment else "", pid, "true" if has_patch_fn else "false", "true" if chained else "false",
         ", ".join(lean_tok(t, ids) for t in toks),
         ", ".join(str(ids.get(x, 999998)) for x in imports),
-        ", ".join(str(x) for x in sorted(ids.get(x, 999998) for x in golist)),
-        ("   -- " + comment) if comment else ""))
+        ", ".join(str(x) for x in sorted(ids.get(x, 999998) for x in golist))))
 
 
 def py_ok_shape(pid, toks, imports, golist, ids, has_patch_fn=False, chained=False):
